@@ -14,7 +14,9 @@ use crate::with_type;
 use dataflow_rs::engine::{AsyncFunctionHandler, Message, Workflow};
 use serde::{Deserialize, Serialize};
 use serde_json::{json, Value};
+use dataflow_rs::engine::FunctionConfig;
 use std::collections::HashMap;
+use std::sync::{mpsc, Arc, Mutex};
 use swift_mt_message::messages::*;
 use swift_mt_message::plugin::register_swift_mt_functions;
 use swift_mt_message::{ScenarioConfig, SwiftMessageBody, SwiftParser};
@@ -28,9 +30,154 @@ pub struct Spec {
     pub path: String,
     pub entropy_seed: u64,
     pub clock: ClockCfg,
+    /// path "interleaved": further pipelines (scenario files) running next to `scenario`
+    #[serde(default)]
+    pub more_pipelines: Vec<String>,
+    /// path "interleaved": caller threads, and the schedule as (pipeline, task 0..3 = generate/publish/validate/parse, caller)
+    #[serde(default)]
+    pub callers: usize,
+    #[serde(default)]
+    pub steps: Vec<(usize, usize, usize)>,
 }
 
 pub struct C15;
+
+const TASKS: [&str; 4] = ["generate_mt", "publish_mt", "validate_mt", "parse_mt"];
+
+fn task_config(t: usize) -> FunctionConfig {
+    let input = match t {
+        0 => json!({"target": "sample_json"}),
+        1 => json!({"source": "sample_json", "target": "sample_mt"}),
+        2 => json!({"source": "sample_mt", "target": "validation_result"}),
+        _ => json!({"source": "sample_mt", "target": "mt_json"}),
+    };
+    FunctionConfig::Custom { name: TASKS[t].into(), input }
+}
+
+fn run_task(t: usize, msg: &mut Message) -> Result<(), String> {
+    let cfg = task_config(t);
+    let dl = Arc::new(datalogic_rs::DataLogic::new());
+    let r = match t {
+        0 => block_on(swift_mt_message::plugin::Generate.execute(msg, &cfg, dl)),
+        1 => block_on(swift_mt_message::plugin::Publish.execute(msg, &cfg, dl)),
+        2 => block_on(swift_mt_message::plugin::Validate.execute(msg, &cfg, dl)),
+        _ => block_on(swift_mt_message::plugin::Parse.execute(msg, &cfg, dl)),
+    };
+    match r {
+        Ok((Ok(_), _)) => Ok(()),
+        Ok((Err(e), _)) => Err(format!("{e:?}")),
+        Err(h) => Err(format!("HARNESS {h}")),
+    }
+}
+
+/// Several pipelines whose tasks are interleaved by the scheduler across caller
+/// threads: the four plugin handlers are driven directly (they are the public
+/// plugin API), one task at a time, exactly one thread runnable at any moment.
+/// validate_mt and parse_mt both only read `sample_mt`, so either order is a
+/// legal workflow.
+fn run_interleaved(scs: &[scen::Scenario], spec: &Spec, ctx: &Arc<seam::RunCtx>, out: &mut Outcome) {
+    let k = spec.callers.clamp(1, 3);
+    let msgs: Arc<Vec<Mutex<Message>>> = Arc::new(scs.iter().map(|s| Mutex::new(Message::from_value(&s.value))).collect());
+    let mut cmd_tx = vec![];
+    let mut resp_rx = vec![];
+    let mut handles = vec![];
+    for _ in 0..k {
+        let (ctx_c, msgs_c) = (ctx.clone(), msgs.clone());
+        let (tx, rx) = mpsc::channel::<Option<(usize, usize)>>();
+        let (rtx, rrx) = mpsc::channel::<Result<(), String>>();
+        cmd_tx.push(tx);
+        resp_rx.push(rrx);
+        handles.push(std::thread::spawn(move || {
+            let _a = seam::attach(&ctx_c);
+            while let Ok(Some((p, t))) = rx.recv() {
+                let r = std::panic::catch_unwind(std::panic::AssertUnwindSafe(|| {
+                    let mut m = msgs_c[p].lock().unwrap_or_else(|e| e.into_inner());
+                    run_task(t, &mut m)
+                }))
+                .unwrap_or_else(|p| Err(format!("PANIC {}", p.downcast_ref::<String>().cloned().or(p.downcast_ref::<&str>().map(|s| s.to_string())).unwrap_or_default())));
+                if rtx.send(r).is_err() {
+                    break;
+                }
+            }
+        }));
+    }
+    let n = scs.len();
+    let mut done = vec![[false; 4]; n];
+    let mut failed: Vec<Option<(usize, String)>> = vec![None; n];
+    // the recorded schedule, then whatever is still missing in canonical order
+    let mut steps = spec.steps.clone();
+    for p in 0..n {
+        for t in 0..4 {
+            steps.push((p, t, p));
+        }
+    }
+    let mut seq = 0;
+    for (p, t, c) in steps {
+        let (p, t, c) = (p % n, t % 4, c % k);
+        let ready = match t {
+            0 => true,
+            1 => done[p][0],
+            _ => done[p][1],
+        };
+        if done[p][t] || !ready || failed[p].is_some() {
+            continue;
+        }
+        if cmd_tx[c].send(Some((p, t))).is_err() {
+            out.harness_error = Some("caller thread gone".into());
+            break;
+        }
+        let r = resp_rx[c].recv().unwrap_or(Err("HARNESS caller thread gone".into()));
+        out.log.push(format!("{seq} c{c} p{p} {} -> {}", TASKS[t], if r.is_ok() { "ok".to_string() } else { "error".to_string() }));
+        seq += 1;
+        done[p][t] = true;
+        if let Err(e) = r {
+            if let Some(h) = e.strip_prefix("HARNESS ") {
+                out.harness_error = Some(h.to_string());
+                break;
+            }
+            failed[p] = Some((t, e));
+        }
+    }
+    for tx in &cmd_tx {
+        let _ = tx.send(None);
+    }
+    for h in handles {
+        let _ = h.join();
+    }
+    if out.harness_error.is_some() {
+        return;
+    }
+    let interleaved = {
+        // did tasks of different pipelines actually alternate?
+        let order: Vec<usize> = out.log.iter().filter_map(|l| l.split(" p").nth(1).and_then(|x| x.split(' ').next()).and_then(|x| x.parse().ok())).collect();
+        order.windows(2).filter(|w| w[0] != w[1]).count() > n.saturating_sub(1)
+    };
+    if interleaved {
+        out.count("fault.schedule.pipelines_interleaved_at_task_level", 1);
+    }
+    let mut texts = vec![];
+    for (p, sc) in scs.iter().enumerate() {
+        let mt = format!("MT{}", sc.mt);
+        let m = msgs[p].lock().unwrap_or_else(|e| e.into_inner());
+        if let Some((t, e)) = &failed[p] {
+            if out.violation.is_none() {
+                out.violation = Some(violation(format!("C15/O1 {mt} task error in {}", TASKS[*t]), format!("{} (pipeline {p}): {}", sc.rel, e.chars().take(700).collect::<String>())));
+            }
+            continue;
+        }
+        let d = m.data().clone();
+        let v = judge(sc, &d, out);
+        texts.push(d.get("sample_mt").and_then(|v| v.as_str()).unwrap_or("").to_string());
+        if out.violation.is_none() {
+            if let Some(mut v) = v {
+                v.detail = format!("(pipeline {p} of {n}, tasks interleaved) {}", v.detail);
+                out.violation = Some(v);
+            }
+        }
+    }
+    out.content_digest = fnv_str(&texts.join("\u{1}"));
+}
+
 
 fn workflow(mt: &str) -> Result<Workflow, String> {
     let j = json!({
@@ -80,6 +227,25 @@ fn probes(out: &mut Outcome, generated: &Value, text: &str) {
                 }
             }
             Value::Array(a) => a.iter().for_each(|x| walk(x, out)),
+            Value::String(t) => {
+                for line in t.split('\n') {
+                    if line.ends_with(' ') {
+                        out.count("probe.drawn_string_line_ends_in_blank", 1);
+                    }
+                    if line.starts_with(' ') {
+                        out.count("probe.drawn_string_line_starts_with_blank", 1);
+                    }
+                    if line.contains("  ") {
+                        out.count("probe.drawn_string_double_blank", 1);
+                    }
+                    if line.ends_with('-') || line.starts_with('-') {
+                        out.count("probe.drawn_string_line_edge_hyphen", 1);
+                    }
+                    if line.starts_with(':') {
+                        out.count("probe.drawn_string_line_starts_with_colon", 1);
+                    }
+                }
+            }
             Value::Number(n) => {
                 if let Some(f) = n.as_f64() {
                     let s = format!("{f}");
@@ -127,17 +293,9 @@ fn run_plugin(sc: &scen::Scenario, out: &mut Outcome) {
             return;
         }
     };
-    let mt = format!("MT{}", sc.mt);
     let d = msg.data().clone();
-    let text = d.get("sample_mt").and_then(|v| v.as_str()).unwrap_or("").to_string();
-    let gen_wrapped = d.get("sample_json").cloned().unwrap_or(Value::Null);
-    let generated = gen_wrapped.get("json_data").cloned().unwrap_or(gen_wrapped);
-    out.content_digest = fnv_str(&text);
-    out.log.push(format!("generated {}", hex(fnv_str(&generated.to_string()))));
-    out.log.push(format!("published {} bytes={}", hex(out.content_digest), text.len()));
-    probes(out, &generated, &text);
-
     // O1: the workflow completes
+    let mt = format!("MT{}", sc.mt);
     if let Err(e) = res {
         out.violation = Some(violation(format!("C15/O1 {mt} engine error"), format!("{}: process_message returned {e:?}", sc.rel)));
         return;
@@ -151,10 +309,23 @@ fn run_plugin(sc: &scen::Scenario, out: &mut Outcome) {
         ));
         return;
     }
+    let v = judge(sc, &d, out);
+    out.content_digest = fnv_str(d.get("sample_mt").and_then(|v| v.as_str()).unwrap_or(""));
+    out.violation = v;
+}
+
+/// O1 (outputs present), O2 (no validation error), O3 (exact round trip) over a finished pipeline's data.
+fn judge(sc: &scen::Scenario, d: &Value, out: &mut Outcome) -> Option<Violation> {
+    let mt = format!("MT{}", sc.mt);
+    let text = d.get("sample_mt").and_then(|v| v.as_str()).unwrap_or("").to_string();
+    let gen_wrapped = d.get("sample_json").cloned().unwrap_or(Value::Null);
+    let generated = gen_wrapped.get("json_data").cloned().unwrap_or(gen_wrapped);
+    out.log.push(format!("generated {}", hex(fnv_str(&generated.to_string()))));
+    out.log.push(format!("published {} bytes={}", hex(fnv_str(&text)), text.len()));
+    probes(out, &generated, &text);
     for k in ["sample_json", "sample_mt", "validation_result", "mt_json"] {
         if d.get(k).is_none_or(|v| v.is_null()) {
-            out.violation = Some(violation(format!("C15/O1 {mt} missing output {k}"), format!("{}: output `{k}` absent after the workflow", sc.rel)));
-            return;
+            return Some(violation(format!("C15/O1 {mt} missing output {k}"), format!("{}: output `{k}` absent after the workflow", sc.rel)));
         }
     }
     // O2: network validation passes with no error
@@ -163,11 +334,10 @@ fn run_plugin(sc: &scen::Scenario, out: &mut Outcome) {
     if vr["valid"] != json!(true) || vr["errors"].as_array().is_none_or(|a| !a.is_empty()) {
         let first = vr["errors"].get(0).and_then(|e| e.as_str()).unwrap_or("").to_string();
         let code = first.split(']').next().unwrap_or("").trim_start_matches('[').to_string();
-        out.violation = Some(violation(
+        return Some(violation(
             format!("C15/O2 {mt} validation {}", if first.starts_with('[') { code } else { "parse error".into() }),
             format!("{}: valid={} errors={}", sc.rel, vr["valid"], short(&vr["errors"])),
         ));
-        return;
     }
     // O3: exact round trip
     let parsed = &d["mt_json"];
@@ -176,11 +346,12 @@ fn run_plugin(sc: &scen::Scenario, out: &mut Outcome) {
     out.log.push(format!("parsed {} diffs={}", hex(fnv_str(&parsed.to_string())), df.len()));
     if let Some(first) = df.first() {
         let p = first.split(':').next().unwrap_or("");
-        out.violation = Some(violation(
+        return Some(violation(
             format!("C15/O3 {mt} round trip {}", path_shape(p)),
             format!("{}: {} difference(s); first: {}", sc.rel, df.len(), first),
         ));
     }
+    None
 }
 
 fn run_sample_typed<T>(sc: &scen::Scenario, out: &mut Outcome)
@@ -249,13 +420,34 @@ impl Engine for C15 {
         let class = (rep % N_CLOCK_CLASSES as u64) as usize;
         let ladder = (i % nf) + rep / N_CLOCK_CLASSES as u64 * 7;
         let mut wl = Sm(derive(run_seed, "workload", 0));
+        let mut sched = Sm(derive(run_seed, "sched", 0));
+        let path = match wl.below(4) {
+            0 => "sample",
+            1 => "interleaved",
+            _ => "plugin",
+        };
+        let (mut more_pipelines, mut callers, mut steps) = (vec![], 0, vec![]);
+        if path == "interleaved" {
+            let n = 2 + wl.below(2);
+            for _ in 1..n {
+                // same scenario (same text length, same generators) half of the time
+                more_pipelines.push(if wl.chance(1, 2) { sc.rel.clone() } else { env.scenarios[wl.below(nf as usize)].rel.clone() });
+            }
+            callers = 1 + sched.below(3);
+            for _ in 0..(10 * n) {
+                steps.push((sched.below(n), sched.below(4), sched.below(callers)));
+            }
+        }
         Spec {
             run_seed,
             scenario: sc.rel.clone(),
             scenario_digest: hex(sc.digest),
-            path: if wl.chance(1, 4) { "sample".into() } else { "plugin".into() },
+            path: path.into(),
             entropy_seed: derive(run_seed, "entropy", 0),
             clock: gen_clock(class, ladder, &mut clock_r),
+            more_pipelines,
+            callers,
+            steps,
         }
     }
 
@@ -276,10 +468,24 @@ impl Engine for C15 {
         let ctx2 = ctx.clone();
         let path = spec.path.clone();
         let mut o2 = out.clone();
+        let mut scs = vec![sc.clone()];
+        for r in &spec.more_pipelines {
+            match scen::find(&env.scenarios, r) {
+                Some(x) => scs.push(x.clone()),
+                None => {
+                    out.harness_error = Some(format!("scenario {r} not found"));
+                    return (out, None);
+                }
+            }
+        }
+        let spec_c = spec.clone();
         let res = on_fresh_thread(move || {
             let _a = seam::attach(&ctx2);
+            let _ = std::collections::hash_map::RandomState::new();
             if path == "sample" {
                 run_sample(&sc, &mut o2)
+            } else if path == "interleaved" {
+                run_interleaved(&scs, &spec_c, &ctx2, &mut o2)
             } else {
                 run_plugin(&sc, &mut o2)
             }
@@ -298,7 +504,7 @@ impl Engine for C15 {
         let er = out.counters.get("seam.entropy_calls").copied().unwrap_or(0);
         let cr = out.counters.get("seam.clock_reads").copied().unwrap_or(0);
         out.nontrivial = er + cr > 0;
-        out.shape_digest = fnv_str(&format!("{}|{}|{}", spec.path, spec.scenario, spec.clock.class));
+        out.shape_digest = fnv_str(&format!("{}|{}|{}|{:?}|{:?}", spec.path, spec.scenario, spec.clock.class, spec.more_pipelines, spec.steps));
         out.log.push(format!(
             "seam entropy_calls={er} clock_reads={cr} last_read={}",
             seam::fmt_ns(ctx.now())
@@ -307,6 +513,13 @@ impl Engine for C15 {
             out.count(&format!("clockclass.{}", spec.clock.class), 1);
         }
         out.count(&format!("path.{}", spec.path), 1);
+        if out.violation.is_none() && out.discard.is_none() {
+            for k in ["probe.drawn_string_line_ends_in_blank", "probe.drawn_string_line_starts_with_blank", "probe.drawn_string_double_blank", "probe.drawn_string_line_edge_hyphen", "probe.drawn_string_line_starts_with_colon", "probe.line_trailing_blank", "probe.amount_3plus_decimals"] {
+                if out.counters.contains_key(k) {
+                    out.harvest.push(format!("{k}|{}", spec.scenario));
+                }
+            }
+        }
         (out, None)
     }
 
@@ -335,11 +548,50 @@ impl Engine for C15 {
             s.path = "plugin".into();
             v.push(s);
         }
+        if spec.path == "interleaved" {
+            let mut s = spec.clone();
+            s.path = "plugin".into();
+            s.more_pipelines.clear();
+            s.steps.clear();
+            s.callers = 0;
+            v.push(s);
+            if spec.callers > 1 {
+                let mut s = spec.clone();
+                s.callers = 1;
+                v.push(s);
+            }
+            if spec.more_pipelines.len() > 1 {
+                for k in 0..spec.more_pipelines.len() {
+                    let mut s = spec.clone();
+                    s.more_pipelines.remove(k);
+                    s.steps.retain(|st| st.0 % (spec.more_pipelines.len() + 1) != k + 1);
+                    s.steps.iter_mut().for_each(|st| {
+                        let p = st.0 % (spec.more_pipelines.len() + 1);
+                        st.0 = if p > k + 1 { p - 1 } else { p };
+                    });
+                    v.push(s);
+                }
+            }
+            let n = spec.steps.len();
+            if n > 1 {
+                let mut s = spec.clone();
+                s.steps.truncate(n / 2);
+                v.push(s);
+                let mut s = spec.clone();
+                s.steps.drain(..n / 2);
+                v.push(s);
+            }
+            for k in (0..n).rev() {
+                let mut s = spec.clone();
+                s.steps.remove(k);
+                v.push(s);
+            }
+        }
         v
     }
 
     fn describe(spec: &Spec) -> Value {
         json!({"scenario": spec.scenario, "path": spec.path, "entropy_seed": hex(spec.entropy_seed),
-               "clock": spec.clock.describe()})
+               "clock": spec.clock.describe(), "more_pipelines": spec.more_pipelines, "callers": spec.callers, "steps": spec.steps.len()})
     }
 }
